@@ -99,6 +99,47 @@ type noSearch struct{}
 func (noSearch) AddCipherSearch(bool, time.Duration) {}
 
 func tcpauthEngine(rng *Rng, n int, out *Out, args map[string]string) {
+	// salt generators of the three salt sizes: many salts from ONE generator must be pairwise distinct
+	// (fresh), and the marked ones recognisable by the independent HMAC implementation
+	for _, size := range []int{32, 24, 16} {
+		secret := fmt.Sprintf("gen-secret-%d", rng.Intn(1000))
+		var g service.ServerSaltGenerator = service.NewServerSaltGenerator(secret)
+		if size-4 < 16 {
+			g = service.RandomServerSaltGenerator
+		}
+		total := 400 + 40*n
+		if total > 20000 {
+			total = 20000
+		}
+		seen := map[string]int{}
+		distinct, marked := 0, 0
+		for i := 0; i < total; i++ {
+			salt := make([]byte, size)
+			if err := g.GetSalt(salt); err != nil {
+				out.Oracle("C08", "GetSalt failed: %v", err)
+				break
+			}
+			if j, dup := seen[string(salt)]; dup {
+				if distinct == i { // first repetition only
+					out.Oracle("C08", "salt generator issued the same %d-byte salt twice (calls %d and %d)", size, j+1, i+1)
+				}
+			} else {
+				distinct++
+			}
+			seen[string(salt)] = i
+			if size-4 >= 16 && specIsServerSalt(secret, salt) && g.IsServerSalt(salt) {
+				marked++
+			}
+		}
+		wantMarked := total
+		if size-4 < 16 {
+			wantMarked = 0
+		}
+		if marked != wantMarked {
+			out.Oracle("C08", "%d of %d issued %d-byte salts carry a recognisable mark (expected %d)", marked, total, size, wantMarked)
+		}
+		out.Op(fmt.Sprintf("auth gensalt size=%d n=%d", size, total), fmt.Sprintf("distinct=%d marked=%d", distinct, marked))
+	}
 	for c := 0; c < n; c++ {
 		r := rng.Fork()
 		kt := &keyTable{index: map[string]int{}}
